@@ -140,6 +140,7 @@ pub fn op_short(op: &Op) -> &'static str {
         Op::Restart => "restart",
         Op::MediaDownload { .. } => "media",
         Op::MediaEncrypt { .. } => "mediaenc",
+        Op::RotateKeyPackages => "kprotate",
         Op::SetGroupImage { .. } => "setimage",
         Op::GroupImageDownload { .. } => "gimage",
         Op::Hostile(_) => "hostile",
